@@ -103,6 +103,7 @@ int g_nmtx = 0;
 void *C[128];
 int g_ncond = 0;
 uint64_t (*g_digest)(void) = nullptr;
+static int g_unlock_points = 0;
 int (*g_chooser)(int, const int *, int, void *) = nullptr;
 void *g_chooser_arg = nullptr;
 __thread int tls_tid = -1;
@@ -316,6 +317,7 @@ void vs_point_cond(int op, int obj, int (*enabled_fn)(void *), void *arg) {
   if (controlled()) point(op, obj, nullptr, enabled_fn, arg);
 }
 void vs_set_digest_fn(uint64_t (*fn)(void)) { g_digest = fn; }
+void vs_set_unlock_points(int on) { g_unlock_points = on; }
 void vs_set_chooser(int (*fn)(int, const int *, int, void *), void *arg) { g_chooser = fn; g_chooser_arg = arg; }
 int vs_thread_simpid(int tid) { return (tid >= 0 && tid < g_nthr) ? T[tid].simpid : 0; }
 
@@ -349,6 +351,7 @@ int pthread_mutex_unlock(pthread_mutex_t *m) {
   if (!controlled()) PASS_LOCK(real_munlock, m);
   int id = mtx_id(m);
   M[id].owner = -1;  // any caller may release (VOTCA's token rings unlock from another thread)
+  if (g_unlock_points && vs_tid() >= 0) point(VS_OP_UNLOCK, id);
   return 0;
 }
 int pthread_mutex_init(pthread_mutex_t *m, const pthread_mutexattr_t *a) {
